@@ -69,3 +69,12 @@ pub proof fn axiom_hdr_at_local(buf: Seq<u8>, off: int, rhs: int)
     requires 0 <= off, off + rhs <= buf.len(), rhs >= 0
     ensures hdr_at(buf, off, rhs) == hdr_at(buf.subrange(off, off + rhs), 0, rhs)
 { }
+// BytesMut::resize(n, 0)
+#[verifier::external_body]
+pub fn buf_resize(buf: &mut Vec<u8>, n: usize) ensures final(buf)@.len() == n { unimplemented!() }
+// Vec<RecordHeader>::reverse (slice::reverse)
+#[verifier::external_body]
+pub fn hdrs_reverse(v: &mut Vec<RecordHeader>) ensures final(v)@ == old(v)@.reverse() { unimplemented!() }
+// Vec::with_capacity(n)
+#[verifier::external_body]
+pub fn hdrs_with_capacity(n: usize) -> (r: Vec<RecordHeader>) ensures r@.len() == 0 { unimplemented!() }
